@@ -11,11 +11,13 @@ tools/mkbbolt.sh >&2 || exit 2
 OUT="$VERIF_CACHE/bin/dsim"; RACE=""
 if [ "${1:-}" = "race" ]; then OUT="$VERIF_CACHE/bin/dsim-race"; RACE="-race"; fi
 MODFILE=""
+if [ "$VERIF_REPO" != "/repo" ]; then OUT="$OUT-alt-$(echo "$VERIF_REPO" | md5sum | cut -c1-8)"; fi
 if [ "$VERIF_REPO" != "/repo" ] || [ "$VERIF_CACHE" != "/verif/.cache" ]; then
   # scratch copy of the repository (mutant runs) or relocated /verif: same module file with other replace targets
-  MF="$VERIF_CACHE/go.alt.mod"
+  H="$(echo "$VERIF_REPO" | md5sum | cut -c1-8)"
+  MF="$VERIF_CACHE/go.alt.$H.mod"
   sed -e "s#=> /repo#=> $VERIF_REPO#" -e "s#=> /verif/.cache/fp/bbolt#=> $VERIF_CACHE/fp/bbolt#" sim/go.mod > "$MF"
-  cp sim/go.sum "$VERIF_CACHE/go.alt.sum"
+  cp sim/go.sum "$VERIF_CACHE/go.alt.$H.sum"
   MODFILE="-modfile=$MF"
 fi
 ( cd sim && "$GO126" test -c $RACE -tags verif $MODFILE -o "$OUT" ./dsim ) >&2 || { echo "build.sh: build failed" >&2; exit 2; }
